@@ -53,7 +53,14 @@ def subroutine(draw, name, template):
             if params and draw(st.booleans()):
                 p = draw(st.sampled_from(params))
                 used_params.add(p)
-                e = draw(st.sampled_from([
+                others = [q for q in params if q != p]
+                multi = []
+                if others:
+                    q = others[0]
+                    used_params.add(q)
+                    multi = [A.Flat([A.Operand("", A.Num("int", "2")), A.Operand("", A.Param(p)), A.Operand("", A.Param(q))], ["*", "-"]),
+                             A.Flat([A.Operand("", A.Param(p)), A.Operand("", A.Param(q)), A.Operand("", A.Num("float", "0.5"))], ["/", "+"])]
+                e = draw(st.sampled_from(multi + [
                     S.F1(A.Param(p)), S.F1(A.Param(p), "-"),
                     A.Flat([A.Operand("", A.Num("float", "2.5")), A.Operand("", A.Param(p))], ["*"]),
                     A.Flat([A.Operand("", A.Param(p)), A.Operand("", A.Num("int", "1"))], ["+"])]))
